@@ -8,12 +8,16 @@ import (
 	"context"
 	"encoding/json"
 	"fmt"
+	"os"
+	"path/filepath"
+	"strings"
 	"testing"
 
 	admissionv1 "k8s.io/api/admission/v1"
 	corev1 "k8s.io/api/core/v1"
 	metav1 "k8s.io/apimachinery/pkg/apis/meta/v1"
 	"k8s.io/apimachinery/pkg/runtime"
+	k8syaml "k8s.io/apimachinery/pkg/util/yaml"
 	"k8s.io/utils/ptr"
 	"sigs.k8s.io/controller-runtime/pkg/client/fake"
 	"sigs.k8s.io/controller-runtime/pkg/webhook/admission"
@@ -290,3 +294,186 @@ func vfC15RunHook(c *vt.Ctx, s vfC15HookScenario) {
 }
 
 func TestVerifC15Webhook(t *testing.T) { vt.Run(t, vfC15GenHook, g.NoPanic(vfC15RunHook)) }
+
+// ---------------------------------------------------------------------------------
+// terway-controlplane ConfigMap (ctrl-config.yaml + ctrl-secret.yaml) followed into its
+// consumer: what cmd/terway-controlplane does. Every configuration the real
+// controlplane.ParseAndValidate ACCEPTS is handed to the real MutatingHook, and pods are
+// admitted through its handler (Handler.Handle: without controller-runtime's recover).
+// A rejected configuration is the contract; a panic, at load time or at admission time,
+// is the violation.
+
+type vfC15CtrlScenario struct {
+	Kind       string    `json:"kind"`
+	Config     g.Bytes   `json:"config"`     // ctrl-config.yaml
+	Credential g.Bytes   `json:"credential"` // ctrl-secret.yaml
+	Pods       []g.Bytes `json:"pods"`       // further pods (a pod with complete pod-networks is always admitted too)
+	ENIConf    bool      `json:"eni_conf"`   // an eni-config ConfigMap exists
+}
+
+// vfC15ValidCtrlConfig: a well-formed ctrl-config document; every optional key is absent,
+// set, or explicitly null. Rendered as JSON or as block YAML (both are what
+// yaml.Unmarshal reads).
+func vfC15ValidCtrlConfig(t *rapid.T) []byte {
+	type kv struct {
+		k string
+		v any
+	}
+	var doc []kv
+	add := func(k string, v any) { doc = append(doc, kv{k, v}) }
+	add("regionID", "cn-hangzhou")
+	add("clusterID", rapid.SampledFrom([]string{"foo", "c-1"}).Draw(t, "cluster"))
+	add("vpcID", "vpc-1")
+	tri := func(key string) { // absent / true / false / null
+		switch rapid.IntRange(0, 3).Draw(t, key) {
+		case 1:
+			add(key, true)
+		case 2:
+			add(key, false)
+		case 3:
+			add(key, nil)
+		}
+	}
+	tri("enableTrunk")
+	tri("enableWebhookInjectResource")
+	opt := func(key string, vals ...any) {
+		if i := rapid.IntRange(0, 2*len(vals)).Draw(t, key); i < len(vals) {
+			add(key, vals[i])
+		}
+	}
+	opt("ipamType", "", "crd", "default")
+	opt("ipStack", "ipv4", "dual", "ipv6")
+	opt("webhookPort", 4443, 1, 65535)
+	opt("leaderElection", true, false)
+	opt("disableWebhook", true, false)
+	opt("enableDevicePlugin", true, false)
+	opt("centralizedIPAM", true, false)
+	opt("podMaxConcurrent", 1, 10, 10000)
+	opt("kubeClientQPS", 20, 0.5)
+	opt("kubeClientBurst", 30)
+	opt("healthzBindAddress", "0.0.0.0:80", "127.0.0.1:8080")
+	opt("controllers", []any{"*"}, []any{"pod", "-node"}, []any{})
+	opt("customStatefulWorkloadKinds", []any{"CloneSet"}, []any{})
+	opt("vSwitchCacheTTL", "20m0s", "1h")
+	opt("backoffOverride", map[string]any{"default": map[string]any{"Duration": 1000000000, "Factor": 1.5, "Steps": 3}})
+	opt("rateLimit", map[string]any{"AssignPrivateIpAddresses": 10})
+	opt("nodeLabelWhiteList", map[string]any{"a": "b"})
+	if rapid.Bool().Draw(t, "asjson") {
+		m := map[string]any{}
+		for _, e := range doc {
+			m[e.k] = e.v
+		}
+		return g.MustJSON(m)
+	}
+	var sb strings.Builder
+	for _, e := range doc {
+		sb.WriteString(e.k + ": " + string(g.MustJSON(e.v)) + "\n") // a JSON value is a YAML flow value
+	}
+	return []byte(sb.String())
+}
+
+var vfC15CtrlHostile = []string{
+	"regionID: r\nclusterID: c\nvpcID: v\nenableTrunk: false\n",
+	"regionID: r\nclusterID: c\nvpcID: v\nenableTrunk: false\nenableWebhookInjectResource: null\n",
+	"regionID: r\nclusterID: c\nvpcID: v\nenableTrunk: null\nenableWebhookInjectResource: null\n",
+	"regionID: r\nclusterID: c\nvpcID: v\nenableTrunk: ~\nenableWebhookInjectResource: ~\nipamType: crd\n",
+	`{"regionID":"r","clusterID":"c","vpcID":"v","enableTrunk":false,"enableWebhookInjectResource":null,"ipamType":"crd"}`,
+	"regionID: r\nclusterID: c\nvpcID: v\nenableTrunk: \"false\"\n", "regionID: r\nclusterID: c\nvpcID: v\nbackoffOverride: {a: null}\n",
+	"regionID: r\nclusterID: c\nvpcID: v\ncontrollers: [null]\n", "regionID: r\nclusterID: c\nvpcID: v\nwebhookPort: 0\n",
+	"regionID: r\nclusterID: c\nvpcID: v\nkubeClientQPS: 1e39\n", "regionID: r\n", "regionID: [r]\n", "- a\n- b\n", "a: &x [*x]\n", "? \n", "\t", "%YAML 1.2\n---\nregionID: r\n",
+}
+
+func vfC15GenCtrl(t *rapid.T) vfC15CtrlScenario {
+	s := vfC15CtrlScenario{Kind: g.Kind(t)}
+	switch s.Kind {
+	case g.KindValid:
+		s.Config = g.Bytes(vfC15ValidCtrlConfig(t))
+	case g.KindMutated:
+		v := vfC15ValidCtrlConfig(t)
+		if json.Valid(v) {
+			s.Config = g.MutateJSON(t, v)
+		} else {
+			s.Config = g.MutateText(t, string(v))
+		}
+	default:
+		s.Config = g.Raw(t, "abcdefgihjklmnopqrstuvwxyzIDTR:-#&*![]{},'\"|>? \n\n\n0123456789", vfC15CtrlHostile)
+	}
+	s.Credential = g.Bytes(rapid.SampledFrom([]string{"accessKey: foo\naccessSecret: bar\n", "accessKey: foo\naccessSecret: bar\n",
+		"{}", "", "credentialPath: /var/addon/token-config\n", "accessKey: foo\n", "accessKey: null\naccessSecret: null\n", "- a\n"}).Draw(t, "cred"))
+	for i, n := 0, rapid.IntRange(0, 2).Draw(t, "npods"); i < n; i++ {
+		s.Pods = append(s.Pods, g.Bytes(vfC15ValidPod(t)))
+	}
+	s.ENIConf = rapid.Bool().Draw(t, "eniconf")
+	return s
+}
+
+const vfC15CompletePod = `{"kind":"Pod","apiVersion":"v1","metadata":{"name":"web-0","namespace":"ns","annotations":{"k8s.aliyun.com/pod-networks":"{\"podNetworks\":[{\"interface\":\"eth0\",\"vSwitchOptions\":[\"vsw-1\"],\"securityGroupIDs\":[\"sg-1\"]}]}"}},"spec":{"containers":[{"name":"c","image":"busybox"}]}}`
+
+func vfC15RunCtrl(c g.Sink, s vfC15CtrlScenario) {
+	c.Label("kind:" + s.Kind)
+	controlplane.SetConfig(nil) // ParseAndValidate publishes the accepted configuration in a package variable
+
+	// ParseAndValidate asks the ECS metadata service for the region when regionID is empty
+	// (HTTP with retries: minutes in a sandbox without network). Such documents are not
+	// driven; they are recognised with the decoder ParseAndValidate itself uses.
+	var probe struct {
+		RegionID string `json:"regionID"`
+	}
+	if err := k8syaml.Unmarshal(s.Config, &probe); err == nil && probe.RegionID == "" {
+		c.Label("depth0-no-region(metadata lookup not driven)")
+		return
+	}
+
+	dir, err := os.MkdirTemp(".", "c15ctrl")
+	if err != nil {
+		c.Inconclusive("mkdirtemp")
+	}
+	defer os.RemoveAll(dir)
+	cfgPath, credPath := filepath.Join(dir, "ctrl-config.yaml"), filepath.Join(dir, "ctrl-secret.yaml")
+	if os.WriteFile(cfgPath, s.Config, 0o600) != nil || os.WriteFile(credPath, s.Credential, 0o600) != nil {
+		c.Inconclusive("write")
+	}
+	cfg, err := controlplane.ParseAndValidate(cfgPath, credPath)
+	if err != nil {
+		c.Label("depth1-rejected")
+		return
+	}
+	if cfg == nil {
+		c.Fatalf("ParseAndValidate returned nil, nil")
+	}
+	c.NonTrivial()
+	c.Label("depth2-accepted")
+	if cfg.EnableTrunk != nil && !*cfg.EnableTrunk {
+		c.Label("accepted:trunk-off")
+	}
+
+	// the controllers' constructors read the published configuration like this
+	// (pod_controller.go: trunkMode: *controlplane.GetConfig().EnableTrunk; eni_controller.go alike)
+	_ = *controlplane.GetConfig().EnableTrunk
+	_ = controlplane.GetConfig().IPAMType == types.IPAMTypeCRD
+	_ = controlplane.IsControllerEnabled("pod", true, cfg.Controllers)
+
+	objs := []runtime.Object{&corev1.Namespace{ObjectMeta: metav1.ObjectMeta{Name: "ns"}}}
+	if s.ENIConf {
+		objs = append(objs, &corev1.ConfigMap{ObjectMeta: metav1.ObjectMeta{Name: "eni-config", Namespace: "kube-system"},
+			Data: map[string]string{"eni_conf": `{"vswitches":{"zone-a":["vsw-1"]},"security_groups":["sg-1"]}`}})
+	}
+	cl := fake.NewClientBuilder().WithScheme(types.Scheme).WithRuntimeObjects(objs...).Build()
+	hook := MutatingHook(cl, cfg)
+	patched := 0
+	for _, raw := range append([]g.Bytes{g.Bytes(vfC15CompletePod)}, s.Pods...) {
+		req := admission.Request{AdmissionRequest: admissionv1.AdmissionRequest{UID: "u", Kind: metav1.GroupVersionKind{Version: "v1", Kind: "Pod"},
+			Namespace: "ns", Operation: admissionv1.Create, Object: runtime.RawExtension{Raw: raw}}}
+		if resp := hook.Handler.Handle(context.Background(), req); len(resp.Patches) > 0 {
+			patched++
+		}
+	}
+	if patched > 0 {
+		c.Label("depth3-pod-patched")
+	}
+	controlplane.SetConfig(nil)
+}
+
+func TestVerifC15ControlplaneConfig(t *testing.T) {
+	vt.Run(t, vfC15GenCtrl, g.NoPanic(g.Adapt(vfC15RunCtrl)))
+}
